@@ -966,7 +966,7 @@ fn seeded_case(r: &mut Report, seed: u64, i: u64) {
 
     // render: every variant with the seeded properties, one of them also without any
     for (name, t) in &variants {
-        check_render(r, &cx, t, name, &ma, &props);
+        check_render_in(r, &cx, t, name, &ma, &props, ar);
     }
     let (name, t) = variants[g.usize(variants.len())];
     check_render(r, &cx, t, name, &ma, &[]);
@@ -979,7 +979,7 @@ fn seeded_case(r: &mut Report, seed: u64, i: u64) {
             }
         }
         dedup.reverse();
-        check_render(r, &cx, &ta, "new_ref", &ma, &dedup);
+        check_render_in(r, &cx, &ta, "new_ref", &ma, &dedup, ar);
     }
 
     // equality: all variants of A are equal to each other
@@ -1041,9 +1041,31 @@ fn seeded_case(r: &mut Report, seed: u64, i: u64) {
         }
     }
     // the re-split and the neighbours render by their own models too
-    check_render(r, &cx, &tb, "new_ref", &mb, &props);
-    check_render(r, &cx, &tc, "new_ref", &mc, &props);
-    check_render(r, &cx, &te, "new_owned", &me, &props);
+    check_render_in(r, &cx, &tb, "new_ref", &mb, &props, ar);
+    check_render_in(r, &cx, &tc, "new_ref", &mc, &props, ar);
+    check_render_in(r, &cx, &te, "new_owned", &me, &props, ar);
+    // equal templates split differently produce identical output through the same (text-transforming) writer
+    let marked = |t: &Template| {
+        catch(|| {
+            let mut w = Marking::default();
+            let _ = t.render(&props[..]).write(&mut w);
+            w.out
+        })
+    };
+    if let (Ok(a), Ok(b), Ok(e)) = (marked(&ta), marked(&tb), marked(&te)) {
+        r.observe("marking-writer-renders", 3);
+        // (formatters are re-drawn by `resplit`, so only formatter-free models are comparable)
+        let plain = |m: &Model| m.iter().all(|p| !matches!(p, MPart::Hole(_, Some(_))));
+        if plain(&ma) && plain(&mb) && plain(&me) && (a != b || b != e) {
+            viol(
+                r,
+                &cx,
+                "C16:resplit-renders-differently-through-one-writer",
+                format!("the same writer received {:?}, {:?} and {:?} from three splittings of one normal form", a, b, e),
+                json!({"a": format!("{:?}", ma), "b": format!("{:?}", mb), "e": format!("{:?}", me)}),
+            );
+        }
+    }
 }
 
 /// Unrelated pairs only: the cheapest way to reach fragment boundaries that fall inside a
@@ -1052,9 +1074,30 @@ fn unrelated_case(r: &mut Report, seed: u64, i: u64) {
     let mut g = Rng::stream(seed, &[16, 2, i]);
     let text = format!("unrelated pairs block {}", i);
     let case = || json!({"section": "unrelated", "seed": seed, "index": i, "what": text});
+    // (the arena is drawn from the block's stream below, so a replay rebuilds it)
     let cx = Ctx { case: &case };
+    // one block in four draws both sides from one shared buffer (few parts, so single-text and
+    // single-hole templates whose storage starts at the same address meet often)
+    let arena = if g.chance(1, 4) { Arena::new(&mut g) } else { Arena::default() };
+    let ar = &arena;
     for _ in 0..16 {
         r.eval();
+        if ar.aliased() {
+            let ma = gen_model_aliased(&mut g, ar, 2);
+            let mb = gen_model_aliased(&mut g, ar, 2);
+            let pa = parts_of(&ma, ar, How::Aliased, &mut g);
+            let pb = parts_of(&mb, ar, if g.chance(3, 4) { How::Aliased } else { How::Owned }, &mut g);
+            let ta = match &ma[..] {
+                [MPart::Text(s)] if g.bool() => Template::literal_ref(ar.kref(s, 0)),
+                _ => Template::new_ref(&pa),
+            };
+            let tb = match &mb[..] {
+                [MPart::Text(s)] if g.bool() => Template::literal_ref(ar.kref(s, 0)),
+                _ => Template::new_ref(&pb),
+            };
+            check_eq(r, &cx, &ta, &ma, &tb, &mb, "independent-same-buffer");
+            continue;
+        }
         let sub = g.chance(1, 2);
         let ma = gen_model(&mut g, if sub { 3 } else { 6 }, sub);
         let mb = if g.chance(1, 3) {
@@ -1065,8 +1108,8 @@ fn unrelated_case(r: &mut Report, seed: u64, i: u64) {
         } else {
             gen_model(&mut g, if sub { 3 } else { 6 }, sub)
         };
-        let pa = parts_of(&ma, How::Borrowed, &mut g);
-        let pb = parts_of(&mb, How::Borrowed, &mut g);
+        let pa = parts_of(&ma, &NO_ARENA, How::Borrowed, &mut g);
+        let pb = parts_of(&mb, &NO_ARENA, How::Borrowed, &mut g);
         let ta = Template::new_ref(&pa);
         let tb = Template::new_ref(&pb);
         check_eq(r, &cx, &ta, &ma, &tb, &mb, "independent");
@@ -1145,8 +1188,8 @@ fn fixed_pairs(r: &mut Report) {
         }
         r.eval();
         let mut g = Rng::new(1);
-        let pa = parts_of(ma, How::Borrowed, &mut g);
-        let pb = parts_of(mb, How::Borrowed, &mut g);
+        let pa = parts_of(ma, &NO_ARENA, How::Borrowed, &mut g);
+        let pb = parts_of(mb, &NO_ARENA, How::Borrowed, &mut g);
         let ta = Template::new_ref(&pa);
         let tb = Template::new_ref(&pb);
         check_eq(r, &cx, &ta, ma, &tb, mb, "hand-written");
@@ -1168,6 +1211,106 @@ fn fixed_pairs(r: &mut Report) {
     check_eq(r, &cx, &lit, &ml, &st, &m, "hand-written");
     let split = [Part::text("text é日"), Part::text(""), Part::text("😀 {not a hole}")];
     check_eq(r, &cx, &lit, &ml, &Template::new_ref(&split), &ml, "hand-written");
+
+    // text, labels and property keys that share storage: slices of one buffer that start at the
+    // same address with different lengths, and the same text at different addresses
+    let src = String::from("user_id");
+    let dotted = String::from("a.b.c");
+    let twice = String::from("ab.ab");
+    let user = &src[..4];
+    let user_id = &src[..];
+    let empty = &src[..0];
+    let other_user = String::from("user");
+    type Build<'x> = (&'x str, Template<'x>, Model);
+    let p_user = [Part::text_ref(user)];
+    let p_user_id = [Part::text_ref(user_id)];
+    let p_empty = [Part::text_ref(empty)];
+    let p_other = [Part::text_ref(&other_user)];
+    let h_user = [Part::hole_ref(user)];
+    let h_user_id = [Part::hole_ref(user_id)];
+    let h_empty = [Part::hole_str(Str::new_ref(empty))];
+    let h_other = [Part::hole_ref(&other_user)];
+    let mixed_a = [Part::text_ref(user), Part::hole_ref(user_id), Part::text_ref(empty), Part::hole_ref(user)];
+    let mixed_b = [Part::text_ref(&other_user), Part::hole_ref(user_id), Part::hole_ref(&other_user)];
+    let mixed_c = [Part::text_ref(user_id), Part::hole_ref(user_id), Part::hole_ref(user)];
+    let anc: Vec<[Part; 1]> = [0usize, 1, 3, 5].iter().map(|n| [Part::hole_ref(&dotted[..*n])]).collect();
+    let tw_a = [Part::text_ref(&twice[..2]), Part::hole_ref(&twice[..2])];
+    let tw_b = [Part::text_ref(&twice[3..]), Part::hole_ref(&twice[3..])];
+    let tw_c = [Part::text_ref(&twice[..]), Part::hole_ref(&twice[..2])];
+    let mut builds: Vec<Build> = vec![
+        ("literal_ref-user", Template::literal_ref(user), vec![t("user")]),
+        ("literal_ref-user_id", Template::literal_ref(user_id), vec![t("user_id")]),
+        ("literal_ref-empty", Template::literal_ref(empty), vec![t("")]),
+        ("literal_ref-other-user", Template::literal_ref(&other_user), vec![t("user")]),
+        ("text_ref-user", Template::new_ref(&p_user), vec![t("user")]),
+        ("text_ref-user_id", Template::new_ref(&p_user_id), vec![t("user_id")]),
+        ("text_ref-empty", Template::new_ref(&p_empty), vec![t("")]),
+        ("text_ref-other-user", Template::new_ref(&p_other), vec![t("user")]),
+        ("hole_ref-user", Template::new_ref(&h_user), vec![h("user")]),
+        ("hole_ref-user_id", Template::new_ref(&h_user_id), vec![h("user_id")]),
+        ("hole_str-empty", Template::new_ref(&h_empty), vec![h("")]),
+        ("hole_ref-other-user", Template::new_ref(&h_other), vec![h("user")]),
+        ("mixed-a", Template::new_ref(&mixed_a), vec![t("user"), h("user_id"), t(""), h("user")]),
+        ("mixed-b", Template::new_ref(&mixed_b), vec![t("user"), h("user_id"), h("user")]),
+        ("mixed-c", Template::new_ref(&mixed_c), vec![t("user_id"), h("user_id"), h("user")]),
+        ("twice-first", Template::new_ref(&tw_a), vec![t("ab"), h("ab")]),
+        ("twice-second", Template::new_ref(&tw_b), vec![t("ab"), h("ab")]),
+        ("twice-whole", Template::new_ref(&tw_c), vec![t("ab.ab"), h("ab")]),
+    ];
+    for (n, a) in [0usize, 1, 3, 5].iter().zip(anc.iter()) {
+        builds.push(("ancestor-hole", Template::new_ref(a), vec![h(&dotted[..*n])]));
+    }
+    // every pair, by content
+    for x in 0..builds.len() {
+        if !pick() {
+            continue;
+        }
+        r.eval();
+        for y in x..builds.len() {
+            check_eq(r, &cx, &builds[x].1, &builds[x].2, &builds[y].1, &builds[y].2, "shared-buffer");
+        }
+        let owned = builds[x].1.to_owned();
+        check_eq(r, &cx, &owned, &builds[x].2, &builds[x].1, &builds[x].2, "shared-buffer");
+        // rendering with keys from the same buffer, in both orders, and with only the shorter key
+        let v1 = Val::I(1);
+        let v2 = Val::S("two".into());
+        let v3 = Val::B(true);
+        let model_props = |keys: &[&str]| -> Vec<Entry> { keys.iter().zip([&v1, &v2, &v3]).map(|(k, v)| (k.to_string(), (*v).clone())).collect() };
+        for keys in [
+            vec![user, user_id, empty],
+            vec![user_id, user],
+            vec![empty, user],
+            vec![user],
+            vec![user_id],
+            vec![&dotted[..1], &dotted[..3], &dotted[..]],
+            vec![&dotted[..], &dotted[..0], &dotted[..3]],
+            vec![&twice[3..], &twice[..]],
+        ] {
+            let mp = model_props(&keys);
+            let want = reference_render(&builds[x].2, &mp);
+            let want_marked = reference_marked(&builds[x].2, &mp);
+            let aliased: Vec<(&str, &Val)> = keys.iter().copied().zip([&v1, &v2, &v3]).collect();
+            let strs: Vec<(Str, Value)> = aliased.iter().map(|(k, v)| (Str::new_ref(k), v.to_value())).collect();
+            let res = catch(|| {
+                let mut w = Marking::default();
+                let _ = builds[x].1.render(&aliased[..]).write(&mut w);
+                (builds[x].1.render(&aliased[..]).to_string(), builds[x].1.render(&strs[..]).to_string(), w.out)
+            });
+            r.observe("renders", 3);
+            r.observe("marking-writer-renders", 1);
+            match res {
+                Ok((a, b, m)) if a == want && b == want && m == want_marked => {}
+                Ok((a, b, m)) => viol(
+                    r,
+                    &cx,
+                    &format!("C16:render-differs:shared-buffer-keys:{}", builds[x].0),
+                    format!("{} with property keys {:?} borrowed from the same buffer rendered {:?} / {:?} / {:?}, by content it reads {:?} / {:?}", builds[x].0, keys, a, b, m, want, want_marked),
+                    json!({"template": builds[x].0, "keys": format!("{:?}", keys)}),
+                ),
+                Err(msg) => viol(r, &cx, "C16:render-panics:shared-buffer-keys", format!("rendering panicked: {}", msg), json!({"template": builds[x].0})),
+            }
+        }
+    }
 }
 
 fn model_of(tpl: &Template) -> Model {
@@ -1226,13 +1369,39 @@ fn site_tpl(r: &mut Report, name: &str, tpl: &Template, want: &[MPart], props: &
         })
         .collect();
     let mut g = Rng::new(7);
-    let parts = parts_of(&plain, How::Borrowed, &mut g);
+    let parts = parts_of(&plain, &NO_ARENA, How::Borrowed, &mut g);
     let runtime = Template::new_ref(&parts);
     check_eq(r, &cx, tpl, &got, &runtime, &plain, "macro-vs-runtime");
     let owned = Template::new_owned(owned_parts(&plain, &mut g));
     check_eq(r, &cx, tpl, &got, &owned, &plain, "macro-vs-runtime");
     // rendering: identical to the runtime template where no formatter is involved, and to the
     // text written next to the call site
+    // a writer whose write_text is not write_str: the macro template's text must reach it
+    // through write_text exactly like the runtime template's
+    let marked = catch(|| {
+        let mut w = Marking::default();
+        let _ = tpl.render(props).write(&mut w);
+        let mut w2 = Marking::default();
+        let _ = tpl.to_owned().render(props).write(&mut w2);
+        (w.out, w2.out)
+    });
+    r.observe("marking-writer-renders", 2);
+    match marked {
+        Ok((m1, m2)) => {
+            let raw = m1.contains("RAW[") || m2.contains("RAW[");
+            let differs = !has_fmt(want).contains(&true) && (m1 != reference_marked(&plain, props) || m2 != m1);
+            if raw || differs {
+                viol(
+                    r,
+                    &cx,
+                    &format!("C16:{}:write-marking:site:{}", if raw { "text-bypasses-write_text" } else { "render-differs" }, name),
+                    format!("a text-transforming writer received {:?} / {:?} (macro template, its to_owned); the literal gives {:?}", m1, m2, reference_marked(&plain, props)),
+                    witness(),
+                );
+            }
+        }
+        Err(msg) => viol(r, &cx, &format!("C16:render-panics:site:{}", name), format!("rendering panicked: {}", msg), witness()),
+    }
     let res = catch(|| {
         let a = tpl.render(props).to_string();
         let mut b = String::new();
